@@ -221,6 +221,43 @@ def run(ctx):
         ctx.verdict(j is not None, rule, '%s:%s' % (rule, name), 'the break edge and the exhaustion edge join without any statement in between',
                     f.where(others[0][1]), 'join block: %s' % ('bb%d' % j if j is not None else 'none within 6 trivial blocks'),
                     breaks='an early stop returns something a run to exhaustion does not (or vice versa)')
+    # ---------------- O2 for solver loops rewritten as `while` / `loop`
+    rule = 'C09.O2-while-exit'
+    for f, h, body, exits in loops.find_while(lib):
+        ctx.touch(f)
+        thrs = [('param', l, f.local_name(l)) for l in range(1, f.argc + 1) if f.locals[l]['ty'] == 'f64']
+        thrs += [('upvar', i, n) for i, n in f.upvar_names.items() if f.upvar_tys.get(i, '') in ('f64', '&f64')]
+
+        def mentions_thr(x):
+            return x is not None and any(y in thrs or (y[0] == 'upvar' and ('upvar', y[1], f.upvar_names.get(y[1], '')) in thrs) for y in facts.walk(x))
+        for a, b in exits:
+            t = f.blocks[a]['term']
+            if t['t'] != 'switch':
+                continue
+            labels = [v for v, tb in t['targets'] if tb == b] + (['else'] if t['otherwise'] == b else [])
+            c = f.cond_of(a, frozenset(labels))
+            if c['kind'] == 'bool' and strip_refs(c['a'])[0] == 'var':
+                # the loop condition was computed into a bool (e.g. by an inlined `keep_solving(..)` helper):
+                # look at the comparison that defines it on the threshold-dependent path
+                for bj, cs_, v in q.multi_def_values(f, strip_refs(c['a'])[1]):
+                    cm = facts.cmp_of(strip_refs(v))
+                    if cm is not None and any(mentions_thr(x) for x in (cm[1], cm[2]) if x is not None):
+                        c = dict(c, kind=cm[0], a=cm[1], b=cm[2])
+            sides = [c.get('a'), c.get('b')]
+            if not any(mentions_thr(x) for x in sides):
+                continue        # budget / iterator exit
+            safe = False
+            if c['kind'] == 'Lt' and c.get('truth') is True and strip_refs(c['b']) in thrs:
+                safe = True     # bound < threshold, strict, true edge: NaN / 0 / negative never leave
+            if c['kind'] == 'Gt' and c.get('truth') is True and strip_refs(c['a']) in thrs:
+                safe = True
+            if c['kind'] == 'Is:all' and c.get('truth') is True:
+                pred, cf, agg = q.closure_pred(lib, c['b']) if c.get('b') is not None else (None, None, None)
+                safe = pred is not None and pred[0] == 'Lt'
+            ctx.verdict(safe, rule, '%s:%s' % (rule, q.top(f.name)),
+                        'the only threshold-dependent way out of the iteration loop is the true edge of the strict `bound < threshold` (a NaN, zero or negative threshold must never end the run: `!(bound >= threshold)` is not the same test)',
+                        f.where(a), 'leaves on %s(%s, %s) edge %s' % (c['kind'], facts.show(c['a'])[:50], facts.show(c['b'])[:40] if c.get('b') is not None else '', c.get('truth')),
+                        breaks='a NaN threshold stops the run before the first iteration (or a bound equal to the threshold stops it)')
     # ---------------- O4 along the parameter chain: Game::solve -> solve_* -> solve_generic_* -> closure
     rule = 'C09.O4-threshold-chain'
     chain_fns = ['vanilla::solve_full_single', 'vanilla::solve_full_multi', 'vanilla::solve_sampled_single', 'vanilla::solve_sampled_multi',
